@@ -86,10 +86,13 @@ pub fn run(rep: &Report) -> i32 {
     rep.transition(twins.len() as u64);
     let mut wide_fns = wide_fns;
     wide_fns.extend(twin_fns);
+    let hygiene = scope_hygiene_terms();
+    rep.set("scope_hygiene_programs", json!(hygiene.len()));
+    rep.transition(hygiene.len() as u64);
     let lits = wide_literal_terms();
     rep.set("wide_literal_programs", json!(lits.len()));
     rep.transition(lits.len() as u64);
-    let all: Vec<(Expr, Ty)> = deep.into_iter().chain(wide).chain(lits).chain(twins).collect();
+    let all: Vec<(Expr, Ty)> = deep.into_iter().chain(wide).chain(lits).chain(twins).chain(hygiene).collect();
     par_for(&all, rep, 4, |_, (e, ty)| {
         drive::DUMMY.with(|env| check_term(rep, e, ty, &uni, &wide_fns, env, &forms, &seen));
     });
@@ -213,6 +216,42 @@ pub fn wide_literal_terms() -> Vec<(Expr, Ty)> {
     out
 }
 
+/// Statement-less blocks `{ e }`, stacked blocks and parenthesised blocks inside constructs that have a binding scope of
+/// their own (match arms, blocks with lets), each FOLLOWED by reads of variables bound outside the construct: whatever
+/// the construct does to the scope stack must be undone when it ends.
+pub fn scope_hygiene_terms() -> Vec<(Expr, Ty)> {
+    let u8t = Ty::U(8);
+    let x = || var(&gen::var_name(&Ty::U(8), 0));
+    let y = || var(&gen::var_name(&Ty::U(8), 1));
+    let bare = |e: Expr| block(vec![], Some(e));
+    let pair_ty = Ty::tup(vec![u8t.clone(), u8t.clone()]);
+    let triple_ty = Ty::tup(vec![u8t.clone(), u8t.clone(), u8t.clone()]);
+    let mut out = vec![];
+    for wrap in 0..4 {
+        let w = |e: Expr| match wrap {
+            0 => bare(e),
+            1 => bare(bare(e)),
+            2 => Expr::Paren(Box::new(bare(e))),
+            _ => bare(Expr::Paren(Box::new(e))),
+        };
+        // arm body is a wrapper; the other component of the tuple reads an outer variable afterwards
+        out.push((Expr::Tuple(vec![match_(Expr::Some(Box::new(x())), (MPat::None, w(y())), (MPat::Some("m".into(), u8t.clone()), var("m"))), y()]), pair_ty.clone()));
+        out.push((Expr::Tuple(vec![match_(Expr::Some(Box::new(x())), (MPat::None, y()), (MPat::Some("m".into(), u8t.clone()), w(var("m")))), x()]), pair_ty.clone()));
+        out.push((Expr::Tuple(vec![match_(Expr::Left(Box::new(x())), (MPat::Left("l".into(), u8t.clone()), w(var("l"))), (MPat::Right("r".into(), u8t.clone()), w(var("r")))), y(), x()]), triple_ty.clone()));
+        // block with lets whose last let is a wrapper-only block; outer variables read afterwards
+        out.push((
+            block(
+                vec![let_(Pat::id("z"), u8t.clone(), x()), let_(Pat::id("a"), u8t.clone(), y()), let_(Pat::id("r"), u8t.clone(), block(vec![let_(Pat::id("k"), u8t.clone(), dec(5))], Some(w(var("k")))))],
+                Some(Expr::Tuple(vec![var("r"), var("a"), var("z")])),
+            ),
+            triple_ty.clone(),
+        ));
+        // a wrapper as a statement, as a let right-hand side and as a call argument, each followed by reads
+        out.push((block(vec![let_(Pat::id("a"), u8t.clone(), x()), let_(Pat::id("b"), u8t.clone(), w(y())), let_(Pat::id("c"), u8t.clone(), w(var("a")))], Some(Expr::Tuple(vec![var("c"), var("b"), var("a")]))), triple_ty.clone()));
+    }
+    out
+}
+
 /// The wrapped programs of the small families (deep environments, wide calls, wide literals, twin functions), for
 /// checks that only need their texts (C03: whatever is accepted must compile).
 pub fn extra_program_texts(quick: bool) -> Vec<String> {
@@ -225,6 +264,7 @@ pub fn extra_program_texts(quick: bool) -> Vec<String> {
         .chain(wide)
         .chain(wide_literal_terms())
         .chain(twins)
+        .chain(scope_hygiene_terms())
         .map(|(e, ty)| {
             let free = gen::free_typed(&e, &uni);
             let extra = gen::fns_for(&e, &fns);
